@@ -515,10 +515,9 @@ func (t *tr) objExpr(x ast.Expr, e *env) (string, bool) {
 		}
 	case *ast.SelectorExpr:
 		if st, ok := t.objExpr(v.X, e); ok {
-			for _, fd := range t.p.structs[st] {
-				if fd.embed == v.Sel.Name {
-					return fd.embed, true
-				}
+			// an embedded struct of st, directly or promoted through the embedding chain (em.Base is em.Temporal.Base)
+			if v.Sel.Name != st && levelOf[v.Sel.Name] != "" && t.embeds(st, v.Sel.Name) {
+				return v.Sel.Name, true
 			}
 		}
 	}
@@ -1093,6 +1092,9 @@ func (t *tr) retTuple(results []ast.Expr, e *env) (string, int) {
 			if st, ok := t.objExpr(r, e); ok {
 				_ = st
 				if e.isNil {
+					if namedOf(r) != e.recv {
+						panic(nilDeref{}) // a field of the nil receiver
+					}
 					parts = append(parts, "false") // the nil receiver itself
 				} else {
 					parts = append(parts, "true")
@@ -1771,11 +1773,13 @@ var wanted = map[int][]string{
 	3: {"GetVersion", "NewBase", "NewTemporal", "NewEnvironmental",
 		"Base.GetError", "Temporal.GetError", "Environmental.GetError",
 		"Base.Encode", "Temporal.Encode", "Environmental.Encode", "Base.String", "Temporal.String", "Environmental.String",
-		"Base.decodeOne", "Temporal.decodeOne", "Environmental.decodeOne", "Base.Decode", "Temporal.Decode", "Environmental.Decode"},
+		"Base.decodeOne", "Temporal.decodeOne", "Environmental.decodeOne", "Base.Decode", "Temporal.Decode", "Environmental.Decode",
+		"Base.BaseMetrics", "Temporal.BaseMetrics", "Environmental.BaseMetrics", "Environmental.TemporalMetrics"},
 	2: {"NewBase", "NewTemporal", "NewEnvironmental", "Temporal.IsEmpty", "Environmental.IsEmpty",
 		"Base.GetError", "Temporal.GetError", "Environmental.GetError",
 		"Base.Encode", "Base.String", "Temporal.Encode", "Temporal.String", "Environmental.Encode", "Environmental.String",
-		"Base.decodeOne", "Temporal.decodeOne", "Environmental.decodeOne", "Base.Decode", "Temporal.Decode", "Environmental.Decode"},
+		"Base.decodeOne", "Temporal.decodeOne", "Environmental.decodeOne", "Base.Decode", "Temporal.Decode", "Environmental.Decode",
+		"Temporal.BaseMetrics", "Environmental.BaseMetrics", "Environmental.TemporalMetrics"},
 }
 
 func (t *tr) constructor(name string) string {
